@@ -96,7 +96,7 @@ def v_imports(path):
         src = open(path).read()
     except OSError:
         return mods
-    for m in re.finditer(r"From\s+DicomV\s+Require\s+(?:Import|Export)\s+((?:[\w.]*\w\s+)*[\w.]*\w)\s*\.(?:\s|$)", src):
+    for m in re.finditer(r"From\s+DicomV\s+Require\s+(?:(?:Import|Export)\s+)?((?:[\w.]*\w\s+)*[\w.]*\w)\s*\.(?:\s|$)", src):
         for tok in m.group(1).split():
             mods.append(tok)
     return mods
